@@ -516,6 +516,7 @@ func C17(c *Ctx) {
 	c17Emitters(c, impls)
 	c17RequestContexts(c)
 	c17DelayFromAt(c)
+	c17DueTimeKeepsItsFraction(c, "C17-R3")
 	_ = types.Typ
 }
 
